@@ -699,3 +699,8 @@ from . import variants_c10_c14 as _c10_c14  # noqa: E402
 BREAKING += _c10_c14.BREAKING
 PRESERVING += _c10_c14.PRESERVING
 UNDECIDED += _c10_c14.UNDECIDED
+# encoder-interpreter idioms (helper- and table-driven encoders) live in their own module
+from .variants_enc import BREAKING as _ENC_BREAKING, PRESERVING as _ENC_PRESERVING, UNDECIDED as _ENC_UNDECIDED  # noqa: E402
+BREAKING += _ENC_BREAKING
+PRESERVING += _ENC_PRESERVING
+UNDECIDED += _ENC_UNDECIDED
